@@ -2,18 +2,19 @@
 # Runs every check on every behaviour-preserving variant in selftest/benign/*.diff (scratch copies of /repo under
 # ${VERIF_SCRATCH:-/var/tmp}, removed afterwards).  Every variant must stay silent, except those listed in
 # selftest/benign/KNOWN_LIMITS (checker limitation, documented in DESIGN.md 9.8).
-# usage: selftest/run_benign.sh [jobs]
-cd "$(dirname "$0")/.."
-jobs=${1:-4}
+# usage: selftest/run_benign.sh [jobs] [variant.diff ...]
+V=$(cd "$(dirname "$0")/.." && pwd)
+jobs=${1:-4}; shift
 one() {
-  p=$1; name=$(basename $p .diff)
+  V=$1; p=$(readlink -f "$2"); name=$(basename "$p" .diff)
   base=${VERIF_SCRATCH:-/var/tmp}/verif-benign-$name-$$
-  rm -rf $base; mkdir -p $base; rsync -a --exclude target --exclude .git /repo/ $base/
-  (cd $base && patch -p1 -s < $(readlink -f $p)) || { echo "$name PATCH-FAILED"; rm -rf $base; return; }
+  rm -rf "$base"; mkdir -p "$base"; rsync -a --exclude target --exclude .git /repo/ "$base/"
+  if ! (cd "$base" && patch -p1 -s < "$p"); then echo "$name PATCH-FAILED"; rm -rf "$base"; return; fi
   out=$(for c in C01 C02 C03 C04 C05 C06 C07 C08 C09 C10 C11 C12 C13 C14 C15 C16 C17 C18 C19 C20; do
-    VERIF_REPO=$base VERIF_SECOND_PASS=benign-$name ./check $c 2>&1; done)
-  rm -rf $base
-  echo "$name alarms=$(echo "$out" | grep -c '^VIOLATION') $(echo "$out" | grep '^VIOLATION' | sed 's/ replay=.*//' | sort -u | tr '\n' ' ')"
+    VERIF_REPO=$base VERIF_SECOND_PASS=benign-$name "$V/check" $c 2>&1; done)
+  rm -rf "$base"
+  echo "$name alarms=$(echo "$out" | grep -c '^VIOLATION') $(echo "$out" | grep '^VIOLATION' | sed 's/ replay=.*//' | sort -u | tr '\n' ' ')$(echo "$out" | grep -A1 '^VIOLATION' | grep '^  ' | cut -c1-160 | head -3 | tr '\n' '|')"
 }
 export -f one
-ls selftest/benign/*.diff | xargs -P $jobs -n 1 -I{} bash -c 'one {}'
+if [ $# -gt 0 ]; then files=("$@"); else files=("$V"/selftest/benign/*.diff); fi
+printf '%s\n' "${files[@]}" | xargs -P "$jobs" -I{} bash -c 'one "$0" "$1"' "$V" {}
